@@ -37,6 +37,7 @@ type threadCtx struct {
 	declare  []bool   // that variable has to be declared
 	usedT    bool
 	usedE    bool
+	more     []*threadCtx // further `if`s that follow immediately and test another result of the same call
 }
 
 // parseCond: cond is a test of a single operand.
@@ -178,8 +179,46 @@ func (in *inliner) rewriteThreaded(list []ast.Stmt, i int, fd *ast.FuncDecl, fil
 	if th.testIdx < 0 {
 		return nil, 0, false
 	}
+	// further consumers: `if err != nil {…}` followed by `if !ok {…}`
+	nret := 0
+	ast.Inspect(in.bodyOf(c), func(m ast.Node) bool {
+		switch m.(type) {
+		case *ast.FuncLit:
+			return false
+		case *ast.ReturnStmt:
+			nret++
+		}
+		return true
+	})
+	for j := i + 2; j < len(list); j++ {
+		nx, ok := list[j].(*ast.IfStmt)
+		if !ok || nx.Init != nil {
+			break
+		}
+		op2, kind2, okc2 := parseCond(nx.Cond)
+		id2, isId := op2.(*ast.Ident)
+		if !okc2 || !isId {
+			break
+		}
+		idx := -1
+		for k, nme := range th.resNames {
+			if nme != "" && nme == id2.Name {
+				idx = k
+			}
+		}
+		if idx < 0 {
+			break
+		}
+		if nret > 1 && (containsFuncLit(nx.Body) || containsLabel(nx.Body) || nx.Else != nil && (containsFuncLit(nx.Else) || containsLabel(nx.Else))) {
+			break
+		}
+		if !in.qualifyBranches(fd, nx) {
+			break
+		}
+		th.more = append(th.more, &threadCtx{ifs: nx, kind: kind2, testIdx: idx})
+	}
 	if repl, ok := in.tryThread(ce, as, fd, file, c, th); ok {
-		return repl, 2, true
+		return repl, 2 + len(th.more), true
 	}
 	return nil, 0, false
 }
@@ -196,6 +235,66 @@ func containsFuncLit(n ast.Node) bool {
 		return !found
 	})
 	return found
+}
+
+// assignsTo: some statement inside n assigns (or re-declares, or takes the address of) the variable called name.
+func assignsTo(n ast.Node, name string) bool {
+	found := false
+	ast.Inspect(n, func(m ast.Node) bool {
+		switch x := m.(type) {
+		case *ast.AssignStmt:
+			for _, l := range x.Lhs {
+				if id, ok := l.(*ast.Ident); ok && id.Name == name {
+					found = true
+				}
+			}
+		case *ast.UnaryExpr:
+			if id, ok := x.X.(*ast.Ident); ok && x.Op == token.AND && id.Name == name {
+				found = true
+			}
+		case *ast.IncDecStmt:
+			if id, ok := x.X.(*ast.Ident); ok && id.Name == name {
+				found = true
+			}
+		case *ast.RangeStmt:
+			for _, l := range []ast.Expr{x.Key, x.Value} {
+				if id, ok := l.(*ast.Ident); ok && id.Name == name {
+					found = true
+				}
+			}
+		}
+		return !found
+	})
+	return found
+}
+
+// doneArmOf: the return being rewritten sits in a select arm that received from ctxExpr.Done().
+func doneArmOf(ctxExpr ast.Expr) bool {
+	want := types.ExprString(ctxExpr)
+	for _, cm := range retComms {
+		var rx ast.Expr
+		switch y := cm.(type) {
+		case *ast.ExprStmt:
+			rx = y.X
+		case *ast.AssignStmt:
+			if len(y.Rhs) == 1 {
+				rx = y.Rhs[0]
+			}
+		}
+		u, ok := rx.(*ast.UnaryExpr)
+		if !ok || u.Op != token.ARROW {
+			continue
+		}
+		call, ok := u.X.(*ast.CallExpr)
+		if !ok {
+			continue
+		}
+		sel, ok := call.Fun.(*ast.SelectorExpr)
+		if ok && sel.Sel.Name == "Done" && types.ExprString(sel.X) == want {
+			return true
+		}
+	}
+	return false
 }
 
 func containsLabel(n ast.Node) bool {
@@ -220,6 +319,26 @@ func (in *inliner) staticOutcome(e ast.Expr, kind condKind) int {
 			continue
 		}
 		break
+	}
+	// the returned variable is the one an enclosing `if` of the helper just tested (and nothing assigns it inside that
+	// `if` body): its outcome there is known
+	if id, ok := e.(*ast.Ident); ok && id.Name != "nil" && id.Name != "true" && id.Name != "false" {
+		for i := len(retFacts) - 1; i >= 0; i-- {
+			op, k, okc := parseCond(retFacts[i].cond)
+			opId, isId := op.(*ast.Ident)
+			if !okc || !isId || opId.Name != id.Name || assignsTo(retFacts[i].body, id.Name) {
+				continue
+			}
+			sameFamily := (k == condTruthy || k == condFalsy) == (kind == condTruthy || kind == condFalsy)
+			if !sameFamily {
+				continue
+			}
+			// inside the body, condition k holds for the variable; the caller tests `kind`
+			if k == kind {
+				return 1
+			}
+			return 0
+		}
 	}
 	switch kind {
 	case condTruthy, condFalsy:
@@ -263,7 +382,15 @@ func (in *inliner) staticOutcome(e ast.Expr, kind condKind) int {
 						if p == "errors" && sel.Sel.Name == "New" || p == "fmt" && sel.Sel.Name == "Errorf" {
 							isNil = 0
 						}
+						// context.Cause(X) on the select arm `<-X.Done()`: a done context has a non-nil cause
+						if p == "context" && sel.Sel.Name == "Cause" && len(x.Args) == 1 && doneArmOf(x.Args[0]) {
+							isNil = 0
+						}
 					}
+				}
+				// X.Err() on the arm `<-X.Done()`
+				if sel.Sel.Name == "Err" && len(x.Args) == 0 && doneArmOf(sel.X) {
+					isNil = 0
 				}
 			}
 		}
@@ -347,22 +474,22 @@ func (in *inliner) tryThread(ce *ast.CallExpr, assign *ast.AssignStmt, fd *ast.F
 }
 
 func (in *inliner) threadedReturnRewriter(th *threadCtx, res []string, named []string, label string, used *bool) func(r *ast.ReturnStmt, isLast bool) []ast.Stmt {
-	takeBody := func() *ast.BlockStmt {
-		if !th.usedT {
-			th.usedT = true
-			return th.ifs.Body
+	takeBody := func(t *threadCtx) *ast.BlockStmt {
+		if !t.usedT {
+			t.usedT = true
+			return t.ifs.Body
 		}
-		return copyNode(th.ifs.Body, nil, in.info).(*ast.BlockStmt)
+		return copyNode(t.ifs.Body, nil, in.info).(*ast.BlockStmt)
 	}
-	takeElse := func() ast.Stmt {
-		if th.ifs.Else == nil {
+	takeElse := func(t *threadCtx) ast.Stmt {
+		if t.ifs.Else == nil {
 			return nil
 		}
-		if !th.usedE {
-			th.usedE = true
-			return th.ifs.Else
+		if !t.usedE {
+			t.usedE = true
+			return t.ifs.Else
 		}
-		return copyNode(th.ifs.Else, nil, in.info).(ast.Stmt)
+		return copyNode(t.ifs.Else, nil, in.info).(ast.Stmt)
 	}
 	return func(r *ast.ReturnStmt, isLast bool) []ast.Stmt {
 		var out []ast.Stmt
@@ -371,36 +498,43 @@ func (in *inliner) threadedReturnRewriter(th *threadCtx, res []string, named []s
 			lhs = append(lhs, in.ident(t))
 		}
 		var rhs []ast.Expr
-		oc := -1
 		if len(r.Results) > 0 {
 			rhs = r.Results
-			if len(r.Results) == len(res) {
-				oc = in.staticOutcome(r.Results[th.testIdx], th.kind)
-			}
 		} else {
 			for _, nn := range named {
 				rhs = append(rhs, ast.NewIdent(nn))
 			}
 		}
+		// outcomes are judged on the returned expressions before they are moved into the assignment
+		chain := append([]*threadCtx{th}, th.more...)
+		ocs := make([]int, len(chain))
+		for k, t := range chain {
+			ocs[k] = -1
+			if len(r.Results) == len(res) {
+				ocs[k] = in.staticOutcome(r.Results[t.testIdx], t.kind)
+			}
+		}
 		out = append(out, &ast.AssignStmt{Lhs: lhs, Tok: token.ASSIGN, Rhs: rhs})
-		switch oc {
-		case 1:
-			out = append(out, takeBody())
-		case 0:
-			if e := takeElse(); e != nil {
-				out = append(out, e)
+		for k, t := range chain {
+			switch ocs[k] {
+			case 1:
+				out = append(out, takeBody(t))
+			case 0:
+				if e := takeElse(t); e != nil {
+					out = append(out, e)
+				}
+			default:
+				var cond ast.Expr = in.ident(res[t.testIdx])
+				switch t.kind {
+				case condFalsy:
+					cond = &ast.UnaryExpr{Op: token.NOT, X: cond}
+				case condIsNil:
+					cond = &ast.BinaryExpr{X: cond, Op: token.EQL, Y: ast.NewIdent("nil")}
+				case condNotNil:
+					cond = &ast.BinaryExpr{X: cond, Op: token.NEQ, Y: ast.NewIdent("nil")}
+				}
+				out = append(out, &ast.IfStmt{Cond: cond, Body: takeBody(t), Else: takeElse(t)})
 			}
-		default:
-			var cond ast.Expr = in.ident(res[th.testIdx])
-			switch th.kind {
-			case condFalsy:
-				cond = &ast.UnaryExpr{Op: token.NOT, X: cond}
-			case condIsNil:
-				cond = &ast.BinaryExpr{X: cond, Op: token.EQL, Y: ast.NewIdent("nil")}
-			case condNotNil:
-				cond = &ast.BinaryExpr{X: cond, Op: token.NEQ, Y: ast.NewIdent("nil")}
-			}
-			out = append(out, &ast.IfStmt{Cond: cond, Body: takeBody(), Else: takeElse()})
 		}
 		if !isLast {
 			*used = true
